@@ -400,7 +400,7 @@ func run(c *vf.Ctx) {
 			c.Broken("init: %v", err)
 			return
 		}
-		ids, err := g.Import(dir, h)
+		ids, err := gitx.New(dir+".home").Import(dir, h) // own HOME per repository: gitx.Import names its marks file after the global call counter, which two parallel imports can share
 		if err != nil {
 			c.Broken("import: %v", err)
 			return
